@@ -757,7 +757,10 @@ namespace pika::threads::detail {
                 domain_num = fast_mod(schedulehint.hint, num_domains_);
                 // if the thread creating the new task is on the domain
                 // assigned to the new task - try to reuse the core as well
-                if (d_lookup_[thread_num] == domain_num) { q_index = q_lookup_[thread_num]; }
+                if (local_num != std::size_t(-1) && d_lookup_[thread_num] == domain_num)
+                {
+                    q_index = q_lookup_[thread_num];
+                }
                 else { throw std::runtime_error("counter problem in thread scheduler"); }
                 break;
             }
